@@ -411,8 +411,13 @@ def check_slide(run, f, gate, has_measure, rule='R11.take'):
         v = st.targets[0].id
         val = st.value
         lp = ctx.loops[-1]
-        if isinstance(val, ast.Attribute) and val.attr == 'prev_layer' and isinstance(lp, ast.While):
-            to = norm(val)
+        from ..names import inlined
+        val_i = inlined(f, val, ctx=ctx) if isinstance(val, ast.Name) else val
+        if isinstance(val_i, ast.Attribute) and val_i.attr == 'prev_layer' and isinstance(lp, ast.While) \
+                and not (isinstance(val_i.value, ast.Name) and val_i.value.id == v):
+            continue          # `below = layer.prev_layer` only looks at the next layer; the move is the assignment to the pointer itself
+        if isinstance(val_i, ast.Attribute) and val_i.attr == 'prev_layer' and isinstance(lp, ast.While):
+            to = norm(val)      # the name (or expression) under which the layer moved to was tested
             n += 1
             # the loop test holds at this statement when nothing it mentions was reassigned earlier in the body
             used = {x.id for x in ast.walk(lp.test) if isinstance(x, ast.Name)}
